@@ -1039,6 +1039,15 @@ def _evf(x, env):
             return -vs[0]
         if x.op == "FAbs":
             return abs(vs[0])
+        if x.op in ("FFloor", "FCeil", "FTrunc", "FRound"):
+            v0 = float(vs[0])
+            if v0 != v0 or v0 in (float("inf"), float("-inf")) or v0 == 0:
+                return v0
+            return _f32({"FFloor": math.floor, "FCeil": math.ceil, "FTrunc": math.trunc,
+                         "FRound": lambda q: math.copysign(math.floor(abs(q) + 0.5), q)}[x.op](v0))
+        if x.op == "ToI32":
+            v0 = float(vs[0])
+            return None if (v0 != v0 or v0 in (float("inf"), float("-inf"))) else int(math.trunc(v0))
         if x.op in ("FDiv", "FMul", "FAdd", "FSub"):
             l, r = float(vs[0]), float(vs[1])
             try:
@@ -1066,6 +1075,10 @@ def _test_holds(t, env):
         return l in (float("inf"), float("-inf"))
     if op == "isfinite":
         return l == l and l not in (float("inf"), float("-inf"))
+    if not isinstance(l, (int, float)) or (r is not None and not isinstance(r, (int, float))):
+        return None                   # (a value the grid cannot evaluate: the point does not select this path)
+    if op == "fitsi32":
+        return l == l and l not in (float("inf"), float("-inf")) and -2147483648 <= math.trunc(l) <= 2147483647
     return _holds(op, l, r)
 
 
@@ -1124,6 +1137,25 @@ def kind_cmp_table(fb, fname, n_tests=5):
                     return Sym("FNeg", args[0])
                 if end == "abs" and symb and "Float" in cn:
                     return Sym("FAbs", args[0])
+                if end in ("floor", "ceil", "trunc", "round") and symb and len(args) == 1 and ("Float" in cn or "f32" in cn or "Real" in cn):
+                    return Sym("F" + end.capitalize(), args[0])
+                if end == "to_i32" and symb and len(args) == 1:
+                    # Some(the integer part) when it fits an i32, None otherwise: explored both ways
+                    return some(Sym("ToI32", args[0])) if sched(("fitsi32", args[0], None)) else none()
+                if end in ("eq", "ne") and len(args) == 2 and "cmp::" in cn and all(isinstance(x, Enum) and getattr(x, "name", None) in ("Some", "None")
+                                                                                   for x in args):
+                    # two Options of symbolic numbers: equal when both are None, or both Some of equal payloads
+                    l_, r_ = args
+                    if l_.name != r_.name:
+                        res_ = False
+                    elif l_.name == "None":
+                        res_ = True
+                    else:
+                        pl_, pr_ = l_.fields[0], r_.fields[0]
+                        if not (isinstance(pl_, Sym) or isinstance(pr_, Sym)):
+                            return NOT
+                        res_ = sched(("eq", pl_, pr_))
+                    return res_ if end == "eq" else (not res_)
                 if end == "mul" and "ops::Mul" in cn and len(args) == 2 and symb:
                     return Sym("Mul", args[0], args[1])
                 return NOT
@@ -1190,7 +1222,12 @@ def rule_kind_cmp(ctx, rule):
             rs = (["x"] if ka == "Real" else []) + ((["y"] if ka == "Real" else ["x"]) if kb == "Real" else [])
             dens = set(([isyms[1]] if ka == "Rational" else []) + ([jsyms[1]] if kb == "Rational" else []))
             names = isyms + jsyms + rs
-            doms = [range(1, 4) if n_ in dens else (REALS if n_ in rs else range(-2, 3)) for n_ in names]
+            mixed = ("Real" in (ka, kb)) and (ka, kb) != ("Real", "Real")
+            # (an exact operand facing an inexact one: integers binary32 cannot hold — 2^24 + 1, the ends of the i32 range — and the
+            # reals they round to are part of the grid)
+            ints_ = list(range(-2, 3)) + ([16777216, 16777217, 2147483647, -2147483648] if mixed and "Rational" not in (ka, kb) else [])
+            reals_ = REALS + ([16777216.0, 16777218.0, 2147483648.0, -2147483648.0] if mixed and "Rational" not in (ka, kb) else [])
+            doms = [range(1, 4) if n_ in dens else (reals_ if n_ in rs else ints_) for n_ in names]
             bad, points, uncovered = None, 0, 0
             for vals in itertools.product(*doms):
                 env = dict(zip(names, vals))
